@@ -298,7 +298,7 @@ def _make_tree(tree, base):
             _make_tree(sub, p)
 
 
-async def _run_trace(ops, patterns, nbuild, outside, probe=False):
+async def _run_trace(ops, patterns, nbuild, outside, probe=False, restart=False):
     """In cwd (a fresh tree): register the patterns on a real Workflow, apply the operations, fold the
     items with the real Watcher.record_change and commit with the real process_nglob_changes."""
     from stepup.core.enums import Need
@@ -322,6 +322,27 @@ async def _run_trace(ops, patterns, nbuild, outside, probe=False):
                 olds.append((ng, p_c17.canon_glob(ng._glob_pattern)))
         out["before"] = _walk()
         out["hyp"] = (await _check_hypotheses(wf, db, olds, out["before"])) if probe else None
+        if restart:
+            # the director was not running while the tree changed: startup.rescan_nglobs on the next start
+            from stepup.core.startup import rescan_nglobs
+            for op in ops:
+                items = _apply(op, outside)
+                if items is not None:
+                    out["items"] += [(False, k, q) for k, q in items]
+            out["after"] = _walk()
+            out["deleted"], out["updated"] = None, None
+            try:
+                await rescan_nglobs(wf, _quiet_reporter)
+            except Exception as e:  # noqa: BLE001
+                out["error"] = f"{type(e).__name__}: {e}"
+                return out
+            async with db:
+                regs = list(wf.nglob_registrations())
+            for (old, std_before), (_i, recorded, _step) in zip(olds, regs):
+                fresh = NamedGlob(old.pattern, old.subs)
+                fresh.glob()
+                out["rows"].append((old, std_before, p_c17.canon_glob(old._glob_pattern), recorded, fresh))
+            return out
         w = _make_watcher(wf, db)
         for op in ops:
             items = _apply(op, outside)
@@ -357,6 +378,24 @@ async def _check_hypotheses(wf, db, olds, existing):
     bad = []
     dirs = [q for q in existing if q.endswith("/")]
     async with db:
+        # O9: the two other users of the persisted regex (matches_any_glob, _raise_if_glob_match) answer exactly
+        # what the NamedGlob matchers answer (no file nodes are declared here)
+        from stepup.core.exceptions import GraphError
+        probes = set(existing) | {q + suffix for q in ("sub/new", "sub/zz.txt", "d/new", "new", "sub/a/b", "su", "sub/a\nb", "d/a\nb")
+                                  for suffix in ("", "/")}
+        for q in sorted(probes):
+            expect = any(ng._regex.fullmatch(q) is not None for ng, _std in olds)
+            if bool(wf.matches_any_glob(q)) != expect:
+                bad.append(("matches_any_glob-differs-from-matcher", {"path": q, "registered_matchers_accept": expect,
+                                                                      "patterns": [ng.pattern for ng, _ in olds]}))
+            try:
+                wf._raise_if_glob_match("probe", [q])
+                raised = False
+            except GraphError:
+                raised = True
+            if raised != expect:
+                bad.append(("raise_if_glob_match-differs-from-matcher", {"path": q, "registered_matchers_accept": expect,
+                                                                         "patterns": [ng.pattern for ng, _ in olds]}))
         for ng, _std in olds:
             recorded = [str(x) for x in ng.files()]
             probes = set(recorded) | {q for q in existing if ng._regex.fullmatch(q)}
@@ -401,7 +440,7 @@ def _stale_only(out, rec_files, fresh_files):
     return True
 
 
-def _check_trace(ctx, seen, name, ops, patterns, nbuild, probe=False):
+def _check_trace(ctx, seen, name, ops, patterns, nbuild, probe=False, restart=False):
     from . import p_c17
     with tempfile.TemporaryDirectory(prefix="verif-c17b-") as tmp:
         proj = os.path.join(tmp, "proj")
@@ -410,10 +449,14 @@ def _check_trace(ctx, seen, name, ops, patterns, nbuild, probe=False):
         os.mkdir(outside)
         _make_tree(BASE_TREE, proj)
         with contextlib.chdir(proj):
-            out = asyncio.run(_run_trace(ops, patterns, nbuild, outside, probe))
+            out = asyncio.run(_run_trace(ops, patterns, nbuild, outside, probe, restart))
     base_w = {"batch_ops": [list(o) for o in ops], "patterns": patterns, "during_build_items": nbuild,
               "items": [list(i) for i in out["items"]], "deleted": out.get("deleted"), "updated": out.get("updated"),
               "paths_before": out.get("before"), "paths_after": out.get("after"), "trace": name}
+    if restart:
+        base_w["restart"] = True
+        _check_restart(ctx, seen, name, out, base_w)
+        return
     ctx.count("batch_traces")
     ctx.count("batch_items", len(out["items"]))
     for kind, what in out.get("hyp") or []:
@@ -481,21 +524,50 @@ def _check_trace(ctx, seen, name, ops, patterns, nbuild, probe=False):
                 ctx.add_failure("oracle", "O6:batch-update=rescan", sig, detail, witness=w)
 
 
+def _check_restart(ctx, seen, name, out, base_w):
+    """O8: after startup.rescan_nglobs every persisted row equals a fresh glob() (the real function, real tree)."""
+    ctx.count("restart_traces")
+    if out["error"] is not None:
+        sig = "C17:restart:rescan-raised:" + out["error"].split(":")[0]
+        if sig not in seen:
+            seen.add(sig)
+            ctx.add_failure("oracle", "O8:restart-rescan", sig, f"rescan_nglobs raised {out['error']}", witness=base_w)
+        return
+    for old, _std_before, _std_after, recorded, fresh in out["rows"]:
+        rec_files = {str(x) for x in recorded.files()}
+        fresh_files = {str(x) for x in fresh.files()}
+        ctx.case(("O8", old.pattern, tuple(map(tuple, base_w["batch_ops"]))), {str(x) for x in old.files()} != fresh_files)
+        if recorded.results == fresh.results:
+            continue
+        how = ("stale-match-kept" if rec_files - fresh_files else "") + ("match-missed" if fresh_files - rec_files else "")
+        sig = "C17:restart:rescan-differs-from-fresh-scan:" + (how or "same-files-different-keys")
+        if sig not in seen:
+            seen.add(sig)
+            ctx.add_failure("oracle", "O8:restart-rescan", sig,
+                            f"[{name}] pattern {old.pattern!r}: after startup.rescan_nglobs the persisted matches are "
+                            f"{sorted(rec_files)!r}; a fresh glob() gives {sorted(fresh_files)!r}",
+                            witness=dict(base_w, pattern=old.pattern, recorded_after_rescan=sorted(rec_files),
+                                         rescanned=sorted(fresh_files)))
+
+
 def oracle_batch(ctx, only=None):
     """O6: the persisted match sets after a watch-phase commit equal a fresh scan."""
     rng = ctx.rng
     seen = set()
     if only is not None:
         _check_trace(ctx, seen, only.get("trace", "replay"), [tuple(o) for o in only["batch_ops"]], only["patterns"],
-                     only.get("during_build_items", 0), probe="hypothesis" in only)
+                     only.get("during_build_items", 0), probe="hypothesis" in only, restart=bool(only.get("restart")))
         return
     for k, (name, ops) in enumerate(NAMED_TRACES):
         _check_trace(ctx, seen, name, ops, PATTERNS, 0, probe=(k == 0))
+        _check_trace(ctx, seen, name, ops, PATTERNS, 0, restart=True)
     for k in range(ctx.scale(40, 600)):
         ops = _gen_ops(rng)
         pats = rng.sample(PATTERNS, rng.randint(2, 5))
         nbuild = rng.randint(0, 3) if rng.random() < 0.3 else 0
         _check_trace(ctx, seen, f"random-{k}", ops, pats, nbuild, probe=(k % 10 == 3))
+        if k % 3 == 0:
+            _check_trace(ctx, seen, f"random-{k}", ops, pats, 0, restart=True)
 
 
 def replay_batch(ctx, witness):
